@@ -1,20 +1,30 @@
 #!/bin/bash
 # Build the simulator test binary against a given checkout of attestantio/dirk (default /repo).
-# usage: build_sim.sh <out-binary> [repo-path]
+# usage: build_sim.sh <out-binary> [repo-path] [native]
+#   native: build with the default toolchain (the one the repository itself is built and tested with) instead of
+#   go1.26.8; that build has no testing/synctest and hosts only the layers made of real goroutines, sockets and
+#   processes (sim/bubble_off.go).
 set -euo pipefail
 OUT=$1
 REPO=${2:-/repo}
+NATIVE=${3:-}
 export GOFLAGS=-mod=mod GOPROXY=off GOSUMDB=off GOTOOLCHAIN=local
 SIM=$(cd "$(dirname "$0")/../sim" && pwd)
 GO=go1.26.8
 command -v $GO >/dev/null 2>&1 || GO=/opt/veriftools/go1.26.8/bin/go
 cd "$SIM"
 cp "$REPO/go.sum" "$SIM/go.sum"
-if [ "$REPO" = "/repo" ]; then
+if [ "$REPO" = "/repo" ] && [ -z "$NATIVE" ]; then
   exec $GO test -c -tags verif -o "$OUT" .
 fi
 MF=$(mktemp -d "${VERIF_SCRATCH:-/dev/shm}/simmod.XXXXXX")
 trap 'rm -rf "$MF"' EXIT
 sed "s#=> /repo#=> $REPO#" go.mod > "$MF/go.mod"
 cp go.sum "$MF/go.sum"
+if [ -n "$NATIVE" ]; then
+  GO=go
+  # the module's language version becomes the repository's own
+  GOLINE=$(grep -m1 '^go ' "$REPO/go.mod")
+  sed -i "s#^go 1.26.8#$GOLINE#" "$MF/go.mod"
+fi
 $GO test -modfile="$MF/go.mod" -c -tags verif -o "$OUT" .
